@@ -1,7 +1,804 @@
-//! C09 — not built yet.
-use crate::report::Tier;
+//! C09 — the optimizer never changes the answer.
+//!
+//! Differential monitor. One query text is parsed / translated / bound ONCE into a logical plan
+//! P; P is then optimized under every one of the 2^3 combinations of the public optimizer
+//! switches (filter push-down, join reordering, projection push-down) x 3 statistics states
+//! (fresh; computed on an earlier state of the graph; none) and every optimized plan is
+//! executed by the same physical strategy. Oracle: the rows of the un-rewritten plan P.
+//!
+//! The physical strategy is pinned to "scan + generic filter, flat expand" (planner kill
+//! switches on, factorized execution off, no property index) so that a difference can only be
+//! caused by the logical rewrite; the physical alternatives are C10's subject (C10 runs the
+//! default optimizer and varies the physical configuration).
 
-pub fn run(_tier: Tier, _seed: u64) -> ! {
-    println!("INCONCLUSIVE property=C09 reason=monitor not built yet");
-    std::process::exit(2)
+#[path = "c09_gen.rs"]
+mod qgen;
+
+use crate::hooks;
+use crate::report::{Report, Tier};
+use crate::rng::{Rng, hash_str};
+use crate::util::catch;
+use qgen::{GraphSpec, Lang, Outcome, Profile, Query};
+use grafeo_engine::GrafeoDB;
+use grafeo_engine::query::binder::Binder;
+use grafeo_engine::query::optimizer::{CardinalityEstimator, Optimizer};
+use grafeo_engine::query::plan::LogicalPlan;
+use grafeo_engine::query::{Executor, Planner, translate_cypher, translate_gql};
+use serde_json::json;
+use std::collections::BTreeMap;
+use std::sync::Arc;
+use std::sync::atomic::Ordering;
+
+const STATS: [&str; 3] = ["fresh", "stale", "none"];
+
+fn switch_name(c: usize) -> String {
+    format!("{}{}{}", if c & 1 != 0 { "F" } else { "-" }, if c & 2 != 0 { "J" } else { "-" }, if c & 4 != 0 { "P" } else { "-" })
+}
+
+fn translate(q: &Query) -> Result<LogicalPlan, String> {
+    let text = q.text();
+    let r = catch(|| match q.lang {
+        Lang::Gql => translate_gql(&text),
+        Lang::Cypher => translate_cypher(&text),
+    });
+    let plan = match r {
+        Ok(Ok(p)) => p,
+        Ok(Err(e)) => return Err(format!("translate: {e}")),
+        Err(p) => return Err(format!("translate panic {}", p.site)),
+    };
+    match catch(|| Binder::new().bind(&plan).map(|_| ())) {
+        Ok(Ok(())) => Ok(plan),
+        Ok(Err(e)) => Err(format!("bind: {e}")),
+        Err(p) => Err(format!("bind panic {}", p.site)),
+    }
+}
+
+/// statistics of an earlier state of the graph: the first half of the nodes and the edges among them
+fn stale_statistics(g: &GraphSpec) -> grafeo_core::statistics::Statistics {
+    let h = g.nodes.len().div_ceil(2);
+    let mut g0 = GraphSpec { nodes: g.nodes[..h].to_vec(), edges: vec![] };
+    g0.edges = g.edges.iter().filter(|e| e.src < h && e.dst < h).take(g.edges.len() / 2 + 1).cloned().collect();
+    let b = qgen::build(&g0, false);
+    b.db.store().ensure_statistics_fresh();
+    b.db.store().statistics()
+}
+
+fn optimizer(stats: usize, c: usize, db: &GrafeoDB, stale: &grafeo_core::statistics::Statistics) -> Optimizer {
+    let o = match stats {
+        0 => Optimizer::from_store(db.store()),
+        1 => Optimizer::new().with_cardinality_estimator(CardinalityEstimator::from_statistics(stale)),
+        _ => Optimizer::new(),
+    };
+    o.with_filter_pushdown(c & 1 != 0).with_join_reorder(c & 2 != 0).with_projection_pushdown(c & 4 != 0)
+}
+
+fn execute(db: &GrafeoDB, plan: &LogicalPlan) -> Outcome {
+    let store = Arc::clone(db.store());
+    qgen::outcome_of(catch(|| {
+        let planner = Planner::new(store).with_factorized_execution(false);
+        let mut phys = planner.plan(plan)?;
+        let ex = Executor::with_columns(phys.columns.clone());
+        ex.execute(phys.operator.as_mut())
+    }))
+}
+
+struct CaseRun {
+    /// Debug string of P
+    base_plan: String,
+    base: Outcome,
+    base_digest: u64,
+    /// per (stats, switches): (rewritten, outcome, digest)
+    runs: Vec<(usize, usize, bool, Outcome, u64)>,
+    /// Debug string of the last optimized plan
+    last_plan: String,
+    last_optimized: Option<LogicalPlan>,
+}
+
+/// Run P under the given configurations. Read-only statements share one database; mutating
+/// statements get a fresh copy per configuration.
+fn run_case(g: &GraphSpec, mutating: bool, plan: &LogicalPlan, configs: &[(usize, usize)]) -> CaseRun {
+    let stale = stale_statistics(g);
+    let shared = qgen::build(g, false);
+    let base_plan = format!("{:?}", plan.root);
+    let (base, base_digest) = if mutating {
+        let b = qgen::build(g, false);
+        let o = execute(&b.db, plan);
+        (o, qgen::digest(&b.db))
+    } else {
+        (execute(&shared.db, plan), 0)
+    };
+    let mut runs = Vec::new();
+    let mut last_plan = String::new();
+    let mut last_optimized = None;
+    for &(s, c) in configs {
+        let fresh;
+        let db = if mutating {
+            fresh = qgen::build(g, false);
+            &fresh.db
+        } else {
+            &shared.db
+        };
+        let opt = optimizer(s, c, db, &stale);
+        let optimized = match catch(|| opt.optimize(plan.clone())) {
+            Ok(Ok(p)) => p,
+            Ok(Err(e)) => {
+                runs.push((s, c, false, Outcome::Error(format!("optimize: {e}")), 0));
+                continue;
+            }
+            Err(p) => {
+                runs.push((s, c, false, Outcome::Panic(p.site, p.msg), 0));
+                continue;
+            }
+        };
+        last_plan = format!("{:?}", optimized.root);
+        let rewritten = last_plan != base_plan;
+        let o = execute(db, &optimized);
+        let d = if mutating { qgen::digest(db) } else { 0 };
+        last_optimized = Some(optimized);
+        runs.push((s, c, rewritten, o, d));
+    }
+    CaseRun { base_plan, base, base_digest, runs, last_plan, last_optimized }
+}
+
+fn all_configs() -> Vec<(usize, usize)> {
+    let mut v = Vec::new();
+    for s in 0..3 {
+        for c in 0..8 {
+            v.push((s, c));
+        }
+    }
+    v
+}
+
+fn mismatch(run: &CaseRun, idx: usize, ordered: bool) -> Option<String> {
+    let (_, _, _, o, d) = &run.runs[idx];
+    if let Some(k) = qgen::diff(&run.base, o, ordered) {
+        return Some(k);
+    }
+    if *d != run.base_digest {
+        return Some("wrong_effect".into());
+    }
+    None
+}
+
+/// does (g, q) still differ under configuration (s, c)?
+fn still_fails(g: &GraphSpec, q: &Query, s: usize, c: usize) -> Option<String> {
+    let plan = translate(q).ok()?;
+    let run = run_case(g, q.mutation.is_some(), &plan, &[(s, c)]);
+    mismatch(&run, 0, q.ordered())
+}
+
+
+// ------------------------------------------------------------------------------------------
+// plan-level description of what a rewrite did (canonical part of the signatures)
+// ------------------------------------------------------------------------------------------
+
+use grafeo_engine::query::plan::{LogicalExpression as LE, LogicalOperator as LO};
+
+fn op_kind(op: &LO) -> &'static str {
+    match op {
+        LO::NodeScan(s) => {
+            if s.input.is_some() {
+                "NodeScan+input"
+            } else {
+                "NodeScan"
+            }
+        }
+        LO::EdgeScan(_) => "EdgeScan",
+        LO::Expand(e) => {
+            if e.min_hops == 1 && e.max_hops == Some(1) {
+                "Expand"
+            } else {
+                "VarExpand"
+            }
+        }
+        LO::Filter(_) => "Filter",
+        LO::Project(_) => "Project",
+        LO::Join(_) => "Join",
+        LO::Aggregate(_) => "Aggregate",
+        LO::Limit(_) => "Limit",
+        LO::Skip(_) => "Skip",
+        LO::Sort(_) => "Sort",
+        LO::Distinct(_) => "Distinct",
+        LO::CreateNode(_) => "CreateNode",
+        LO::CreateEdge(_) => "CreateEdge",
+        LO::DeleteNode(_) => "DeleteNode",
+        LO::DeleteEdge(_) => "DeleteEdge",
+        LO::SetProperty(_) => "SetProperty",
+        LO::AddLabel(_) => "AddLabel",
+        LO::RemoveLabel(_) => "RemoveLabel",
+        LO::Return(_) => "Return",
+        LO::Empty => "Empty",
+        LO::LeftJoin(_) => "LeftJoin",
+        LO::AntiJoin(_) => "AntiJoin",
+        LO::Unwind(_) => "Unwind",
+        LO::Merge(_) => "Merge",
+        LO::ShortestPath(_) => "ShortestPath",
+        _ => "other",
+    }
+}
+
+fn op_children(op: &LO) -> Vec<&LO> {
+    match op {
+        LO::NodeScan(s) => s.input.iter().map(|b| b.as_ref()).collect(),
+        LO::EdgeScan(s) => s.input.iter().map(|b| b.as_ref()).collect(),
+        LO::Expand(e) => vec![e.input.as_ref()],
+        LO::Filter(f) => vec![f.input.as_ref()],
+        LO::Project(p) => vec![p.input.as_ref()],
+        LO::Join(j) => vec![j.left.as_ref(), j.right.as_ref()],
+        LO::Aggregate(a) => vec![a.input.as_ref()],
+        LO::Limit(l) => vec![l.input.as_ref()],
+        LO::Skip(l) => vec![l.input.as_ref()],
+        LO::Sort(l) => vec![l.input.as_ref()],
+        LO::Distinct(l) => vec![l.input.as_ref()],
+        LO::CreateNode(c) => c.input.iter().map(|b| b.as_ref()).collect(),
+        LO::CreateEdge(c) => vec![c.input.as_ref()],
+        LO::DeleteNode(c) => vec![c.input.as_ref()],
+        LO::DeleteEdge(c) => vec![c.input.as_ref()],
+        LO::SetProperty(c) => vec![c.input.as_ref()],
+        LO::AddLabel(c) => vec![c.input.as_ref()],
+        LO::RemoveLabel(c) => vec![c.input.as_ref()],
+        LO::Return(r) => vec![r.input.as_ref()],
+        LO::LeftJoin(j) => vec![j.left.as_ref(), j.right.as_ref()],
+        LO::AntiJoin(j) => vec![j.left.as_ref(), j.right.as_ref()],
+        LO::Unwind(u) => vec![u.input.as_ref()],
+        LO::Merge(m) => vec![m.input.as_ref()],
+        LO::ShortestPath(m) => vec![m.input.as_ref()],
+        _ => vec![],
+    }
+}
+
+/// variable -> kind ("node" / "edge" / "value"), prefixed "opt_" when bound on the optional side of a LeftJoin
+fn var_kinds(op: &LO, optional: bool, out: &mut BTreeMap<String, String>) {
+    let tag = |k: &str| if optional { format!("opt_{k}") } else { k.to_string() };
+    match op {
+        LO::NodeScan(s) => {
+            out.entry(s.variable.clone()).or_insert_with(|| tag("node"));
+        }
+        LO::Expand(e) => {
+            out.entry(e.to_variable.clone()).or_insert_with(|| tag("node"));
+            if let Some(v) = &e.edge_variable {
+                out.entry(v.clone()).or_insert_with(|| tag("edge"));
+            }
+        }
+        LO::Unwind(u) => {
+            out.entry(u.variable.clone()).or_insert_with(|| tag("value"));
+        }
+        LO::Project(p) => {
+            for x in &p.projections {
+                if let Some(a) = &x.alias {
+                    if !matches!(&x.expression, LE::Variable(v) if v == a) {
+                        out.entry(a.clone()).or_insert_with(|| tag("value"));
+                    }
+                }
+            }
+        }
+        _ => {}
+    }
+    if let LO::LeftJoin(j) = op {
+        var_kinds(&j.left, optional, out);
+        var_kinds(&j.right, true, out);
+    } else {
+        for c in op_children(op) {
+            var_kinds(c, optional, out);
+        }
+    }
+}
+
+fn expr_vars(e: &LE, out: &mut Vec<String>) {
+    match e {
+        LE::Variable(v) | LE::Labels(v) | LE::Type(v) | LE::Id(v) => out.push(v.clone()),
+        LE::Property { variable, .. } => out.push(variable.clone()),
+        LE::Binary { left, right, .. } => {
+            expr_vars(left, out);
+            expr_vars(right, out);
+        }
+        LE::Unary { operand, .. } => expr_vars(operand, out),
+        LE::FunctionCall { args, .. } => args.iter().for_each(|a| expr_vars(a, out)),
+        LE::List(items) => items.iter().for_each(|a| expr_vars(a, out)),
+        _ => {}
+    }
+}
+
+/// every Filter of the plan: (predicate, kind of the operator it sits on)
+fn filters(op: &LO, out: &mut Vec<(String, &'static str, Vec<String>)>) {
+    if let LO::Filter(f) = op {
+        let mut vars = Vec::new();
+        expr_vars(&f.predicate, &mut vars);
+        out.push((format!("{:?}", f.predicate), op_kind(&f.input), vars));
+    }
+    for c in op_children(op) {
+        filters(c, out);
+    }
+}
+
+/// the plan carries values through a WITH projection (typed vectors: NULLs may lose their null-ness)
+fn has_projection(op: &LO) -> bool {
+    matches!(op, LO::Project(_)) || op_children(op).into_iter().any(has_projection)
+}
+
+/// number of places that bind `v` (NodeScan variable, Expand target / edge variable, UNWIND variable)
+fn binding_sites(op: &LO, v: &str) -> usize {
+    let here = match op {
+        LO::NodeScan(s) => usize::from(s.variable == v),
+        LO::Expand(e) => usize::from(e.to_variable == v) + usize::from(e.edge_variable.as_deref() == Some(v)),
+        LO::Unwind(u) => usize::from(u.variable == v),
+        _ => 0,
+    };
+    here + op_children(op).into_iter().map(|c| binding_sites(c, v)).sum::<usize>()
+}
+
+/// every Filter of the plan with the scope below it: (predicate, child kind, variables read, variables bound below)
+fn filters_scoped(op: &LO, out: &mut Vec<(String, Vec<String>, BTreeMap<String, String>)>) {
+    if let LO::Filter(f) = op {
+        let mut vars = Vec::new();
+        expr_vars(&f.predicate, &mut vars);
+        let mut below = BTreeMap::new();
+        var_kinds(&f.input, false, &mut below);
+        out.push((format!("{:?}", f.predicate), vars, below));
+    }
+    for c in op_children(op) {
+        filters_scoped(c, out);
+    }
+}
+
+/// Canonical description of what filter push-down did, coarse enough to name one root cause:
+///  * `scope=unbound`   — a filter now sits where a variable it reads is not bound;
+///  * `scope=ambiguous` — a filter moved although a variable it reads is bound in several places;
+///  * `onto=Filter`     — a filter now sits directly on another filter;
+///  * `vars=<opt|edge|value|node>` otherwise — the most delicate kind of variable the moved
+///    filter reads (opt = bound on the optional side of a left join, may be NULL).
+fn moved_filters(before: &LogicalPlan, after: &LogicalPlan) -> String {
+    let mut kinds = BTreeMap::new();
+    var_kinds(&before.root, false, &mut kinds);
+    let (mut a, mut b) = (Vec::new(), Vec::new());
+    filters(&before.root, &mut a);
+    filters(&after.root, &mut b);
+    let mut scoped = Vec::new();
+    filters_scoped(&after.root, &mut scoped);
+    let mut descr: Vec<String> = Vec::new();
+    let mut used = vec![false; a.len()];
+    for (bi, (pred, onto, vars)) in b.iter().enumerate() {
+        if let Some(i) = (0..a.len()).find(|i| !used[*i] && a[*i].0 == *pred && a[*i].1 == *onto) {
+            used[i] = true;
+            continue;
+        }
+        let from = (0..a.len()).find(|i| !used[*i] && a[*i].0 == *pred).map(|i| {
+            used[i] = true;
+            a[i].1
+        });
+        let below = &scoped[bi].2;
+        if vars.iter().any(|v| !below.contains_key(v)) {
+            descr.push("scope=unbound".into());
+            continue;
+        }
+        if vars.iter().any(|v| binding_sites(&after.root, v) > 1) {
+            descr.push("scope=ambiguous".into());
+            continue;
+        }
+        if *onto == "Filter" {
+            descr.push("onto=Filter".into());
+            continue;
+        }
+        // what matters is the most delicate kind of variable the filter reads: one bound by an
+        // OPTIONAL MATCH (may be NULL), an edge, a plain value, or only nodes
+        let vk: Vec<String> = vars.iter().map(|v| kinds.get(v).cloned().unwrap_or_else(|| "unbound".into())).collect();
+        let class = if vk.iter().any(|k| k.starts_with("opt_")) {
+            "opt"
+        } else if vk.iter().any(|k| k == "edge") {
+            "edge"
+        } else if vk.iter().any(|k| k == "value") {
+            "value"
+        } else {
+            "node"
+        };
+        let _ = from;
+        descr.push(format!("vars={class}"));
+    }
+    descr.sort();
+    descr.dedup();
+    if descr.is_empty() { "no_filter_moved".into() } else { descr.join(";") }
+}
+
+fn coarse_kind(what: &str, kind: &str) -> String {
+    // a filter evaluated in the wrong scope can do anything to the rows, including turning an
+    // error into rows or the reverse: one class
+    if (what.contains("scope=") || what.contains("vars=opt")) && !kind.starts_with("panic@") && !kind.starts_with("baseline_panic@") {
+        "differs".into()
+    } else {
+        kind.to_string()
+    }
+}
+
+use grafeo_common::types::Value;
+
+type DNode<'a> = &'a [(&'a str, Value)];
+type DEdge<'a> = (usize, usize, &'a str, &'a [(&'a str, Value)]);
+
+fn dgraph(nodes: &[DNode], edges: &[DEdge]) -> GraphSpec {
+    let mut g = GraphSpec::default();
+    for (i, n) in nodes.iter().enumerate() {
+        let mut props = vec![("uid".to_string(), Value::Int64(i as i64))];
+        props.extend(n.iter().map(|(k, v)| (k.to_string(), v.clone())));
+        g.nodes.push(qgen::NodeSpec { labels: vec!["L0".to_string()], props });
+    }
+    for (j, (s, d, ty, p)) in edges.iter().enumerate() {
+        let mut props = vec![("uid".to_string(), Value::Int64(100 + j as i64))];
+        props.extend(p.iter().map(|(k, v)| (k.to_string(), v.clone())));
+        g.edges.push(qgen::EdgeSpec { src: *s, dst: *d, ty: ty.to_string(), props });
+    }
+    g
+}
+
+/// Directed texts on fixed graphs: one per way filter push-down is known to matter, plus plain
+/// ones. Enumerated on every run; they share the signature scheme of the random part.
+fn directed() -> Vec<(Lang, &'static str, GraphSpec)> {
+    let i = Value::Int64;
+    let f = Value::Float64;
+    let st = |x: &str| Value::String(x.into());
+    let plain = dgraph(
+        &[&[("k", i(2)), ("w", i(3))], &[("k", i(0)), ("w", i(1))], &[("k", i(5))], &[]],
+        &[(0, 1, "T0", &[("w", i(9))]), (1, 2, "T0", &[("w", i(2))]), (2, 0, "T1", &[]), (0, 2, "T0", &[("w", i(4))])],
+    );
+    vec![
+        (Lang::Gql, "MATCH (a)-[r]->(b) WHERE a.k > 1 RETURN a.uid AS c1, b.uid AS c2", plain.clone()),
+        (Lang::Cypher, "MATCH (a)-[r]->(b) WHERE a.k > 1 RETURN a.uid AS c1, b.uid AS c2", plain.clone()),
+        (Lang::Gql, "MATCH (a:L0)-[r:T0]->(b)-[s]->(c) WHERE a.w >= 2 RETURN a.uid AS c1, c.uid AS c2, r.w AS c3", plain.clone()),
+        (Lang::Gql, "MATCH (a)-[r]->(b) MATCH (c:L0) WHERE c.k < 3 RETURN a.uid AS c1, c.uid AS c2", plain.clone()),
+        // a pushed filter lands directly on another filter
+        (Lang::Gql, "MATCH (a {s: 'a'})-[r]->(b) WHERE a.k <= 4 RETURN a.uid AS c1", dgraph(&[&[("s", st("a"))], &[("k", i(0))]], &[(1, 0, "T0", &[])])),
+        (Lang::Cypher, "MATCH (a) WHERE a.w <= 5 WITH a WHERE a.s IS NULL RETURN a.uid AS c1", dgraph(&[&[("w", i(4)), ("s", st("a"))], &[]], &[])),
+        // an edge variable's property read above a Join / a Project
+        (Lang::Gql, "MATCH (a)-[r]->(b) MATCH (c) WHERE r.w > 4 RETURN a.uid AS c1, c.uid AS c2", dgraph(&[&[], &[]], &[(0, 1, "T1", &[("w", f(9.0))])])),
+        (Lang::Gql, "MATCH (a)-[r]->(b) WITH r WHERE 7 < r.w RETURN r.w AS c1", dgraph(&[&[], &[]], &[(1, 0, "T1", &[("w", i(8))])])),
+        // an optional variable read above a Project
+        (
+            Lang::Gql,
+            "MATCH (a) OPTIONAL MATCH (a)-[r]->(b) WITH b WHERE b.k <> b.z RETURN b.uid AS c1",
+            dgraph(&[&[("k", i(0)), ("z", i(1))], &[], &[]], &[(1, 2, "T0", &[])]),
+        ),
+        // a variable bound on both sides of the join the filter is pushed into
+        (Lang::Gql, "MATCH (a) MATCH (a), (b) WHERE a.z = 0.0 RETURN a.uid AS c1", dgraph(&[&[], &[("z", f(0.0))]], &[])),
+        // a predicate over an OPTIONAL MATCH variable pushed into the other join side
+        (
+            Lang::Gql,
+            "MATCH (a) OPTIONAL MATCH (a)-[r]->(b) MATCH (a) WHERE NOT (r.w = 0 AND a.w >= 9) RETURN a.uid AS c1",
+            dgraph(&[&[("w", f(0.0))], &[]], &[(0, 1, "T1", &[])]),
+        ),
+    ]
+}
+
+fn run_directed(rep: &mut Report) {
+    let configs = all_configs();
+    for (lang, text, g) in directed() {
+        let plan = match lang {
+            Lang::Gql => translate_gql(text),
+            Lang::Cypher => translate_cypher(text),
+        };
+        let plan = match plan.and_then(|p| Binder::new().bind(&p).map(|_| p)) {
+            Ok(p) => p,
+            Err(e) => {
+                rep.count("directed.rejected", 1);
+                rep.extra.insert(format!("directed.rejected.{text}"), json!(e.to_string()));
+                continue;
+            }
+        };
+        rep.eval();
+        rep.count("directed.plans", 1);
+        let run = run_case(&g, false, &plan, &configs);
+        rep.count("configurations_executed", run.runs.len() as u64);
+        if run.runs.iter().any(|r| r.2) {
+            rep.count("plans_rewritten", 1);
+            rep.count("directed.rewritten", 1);
+            rep.nontrivial(hash_str(text));
+        }
+        let failing: Vec<usize> = (0..run.runs.len()).filter(|i| mismatch(&run, *i, false).is_some()).collect();
+        let Some(&first) = failing.first() else { continue };
+        rep.count("directed.with_mismatch", 1);
+        let (s0, c0, _, got, _) = &run.runs[first];
+        let kind = mismatch(&run, first, false).unwrap();
+        let fails_at = |s: usize, c: usize| run.runs.iter().position(|r| r.0 == s && r.1 == c).is_some_and(|i| mismatch(&run, i, false).is_some());
+        let rules: Vec<&str> = [(1usize, "filter_pushdown"), (2, "join_reorder"), (4, "projection_pushdown")].into_iter().filter(|(b, _)| fails_at(0, *b)).map(|(_, n)| n).collect();
+        let rule = if rules.is_empty() { format!("only_combination_{}", switch_name(*c0)) } else { rules.join("+") };
+        let per: Vec<bool> = (0..3).map(|st| fails_at(st, *c0)).collect();
+        let stats = if per.iter().all(|x| *x) { "any".to_string() } else { (0..3).filter(|i| per[*i]).map(|i| STATS[i]).collect::<Vec<_>>().join("+") };
+        let one = run_case(&g, false, &plan, &[(*s0, *c0)]);
+        let what = match &one.last_optimized {
+            Some(o) if rule == "filter_pushdown" => moved_filters(&plan, o),
+            _ => format!("directed:{text}"),
+        };
+        rep.deviation(
+            &format!("c09:rule={rule}|{what}|stats={stats}|{}", coarse_kind(&what, &kind)),
+            json!({"query": text, "lang": lang.name(), "graph": qgen::graph_json(&g), "switches": switch_name(*c0), "stats_state": STATS[*s0],
+                   "expected_unrewritten": run.base.brief(), "got_rewritten": got.brief(), "plan_unrewritten": run.base_plan, "plan_rewritten": one.last_plan}),
+        );
+    }
+}
+
+
+// ------------------------------------------------------------------------------------------
+// latent stratum: hand-built plans with join conditions (the only way to reach DPccp)
+// ------------------------------------------------------------------------------------------
+
+/// No LPG front end emits a Join with conditions, so join reordering never rewrites a
+/// translated plan. These hand-built plans (the shape the repository's own planner tests use)
+/// show what the rule would do; they lie outside the property's quantifier ("queries the
+/// front ends accept"), hence they are reported as information, never as deviations.
+fn latent_join_reorder(rep: &mut Report) {
+    use grafeo_engine::query::plan::{BinaryOp, ExpandDirection, ExpandOp, FilterOp, JoinCondition, JoinOp, JoinType, NodeScanOp, ReturnItem, ReturnOp};
+    let scan = |v: &str, label: Option<&str>| LO::NodeScan(NodeScanOp { variable: v.into(), label: label.map(String::from), input: None });
+    let var = |v: &str| LE::Variable(v.into());
+    let prop = |v: &str, k: &str| LE::Property { variable: v.into(), property: k.into() };
+    let filter = |v: &str, k: &str, op: BinaryOp, x: i64, input: LO| {
+        LO::Filter(FilterOp { predicate: LE::Binary { left: Box::new(prop(v, k)), op, right: Box::new(LE::Literal(Value::Int64(x))) }, input: Box::new(input) })
+    };
+    let join = |l: LO, r: LO, a: &str, b: &str| {
+        LO::Join(JoinOp { left: Box::new(l), right: Box::new(r), join_type: JoinType::Inner, conditions: vec![JoinCondition { left: var(a), right: var(b) }] })
+    };
+    let ret = |vars: &[&str], input: LO| {
+        LogicalPlan::new(LO::Return(ReturnOp {
+            items: vars.iter().enumerate().map(|(i, v)| ReturnItem { expression: prop(v, "uid"), alias: Some(format!("c{}", i + 1)) }).collect(),
+            distinct: false,
+            input: Box::new(input),
+        }))
+    };
+    let expand = |from: &str, to: &str, input: LO| {
+        LO::Expand(ExpandOp {
+            from_variable: from.into(),
+            to_variable: to.into(),
+            edge_variable: None,
+            direction: ExpandDirection::Outgoing,
+            edge_type: None,
+            min_hops: 1,
+            max_hops: Some(1),
+            input: Box::new(input),
+            path_alias: None,
+        })
+    };
+    let plans: Vec<(&str, LogicalPlan)> = vec![
+        ("join(a,b) on a=b", ret(&["a", "b"], join(scan("a", Some("L0")), scan("b", None), "a", "b"))),
+        ("join(filter(a),b) on a=b", ret(&["a", "b"], join(filter("a", "k", BinaryOp::Gt, 1, scan("a", None)), scan("b", None), "a", "b"))),
+        (
+            "join(join(filter(a),b),filter(c)) on a=b, b=c",
+            ret(&["a", "b", "c"], join(join(filter("a", "k", BinaryOp::Gt, 0, scan("a", None)), scan("b", None), "a", "b"), filter("c", "k", BinaryOp::Lt, 5, scan("c", None)), "b", "c")),
+        ),
+        ("join(expand(a->b),c) on b=c", ret(&["a", "b", "c"], join(expand("a", "b", scan("a", None)), scan("c", Some("L0")), "b", "c"))),
+        (
+            "join(join(a,b),join(c,d)) on a=b, c=d, b=c",
+            ret(&["a", "d"], join(join(scan("a", None), scan("b", None), "a", "b"), join(scan("c", None), filter("d", "k", BinaryOp::Gt, 1, scan("d", None)), "c", "d"), "b", "c")),
+        ),
+    ];
+    let g = directed().into_iter().next().unwrap().2;
+    let configs = all_configs();
+    let mut notes = Vec::new();
+    for (name, plan) in plans {
+        if Binder::new().bind(&plan).is_err() {
+            notes.push(json!({"plan": name, "note": "binder rejects"}));
+            continue;
+        }
+        let run = run_case(&g, false, &plan, &configs);
+        rep.count("latent.plans", 1);
+        let by_join = run.runs.iter().any(|r| r.0 == 0 && r.1 == 2 && r.2);
+        if by_join {
+            rep.count("latent.rewritten_by_join_reorder", 1);
+        }
+        let failing: Vec<String> = (0..run.runs.len())
+            .filter_map(|i| mismatch(&run, i, false).map(|k| format!("{}/{}:{k}", STATS[run.runs[i].0], switch_name(run.runs[i].1))))
+            .collect();
+        if !failing.is_empty() {
+            rep.count("latent.plans_with_mismatch", 1);
+        }
+        let one = run_case(&g, false, &plan, &[(0, 2)]);
+        notes.push(json!({"plan": name, "rewritten_by_join_reorder": by_join, "unrewritten": run.base.brief(), "configurations_that_differ": failing,
+                          "with_join_reorder_only": one.runs[0].3.brief(), "plan_after_join_reorder": one.last_plan}));
+    }
+    rep.extra.insert("latent_join_reorder(hand-built plans, information only)".into(), json!(notes));
+}
+
+/// Developer aid / manual replay: `C09_CASE=<n> vh C09 --tier T --seed S` re-generates random
+/// case n and prints the rows on which the un-rewritten plan and filter push-down disagree.
+fn replay_case(tier: Tier, seed: u64, case: u64) -> ! {
+    hooks::NO_ZONE_MAP.store(true, Ordering::SeqCst);
+    hooks::NO_INDEX_PATH.store(true, Ordering::SeqCst);
+    hooks::NO_RANGE_PATH.store(true, Ordering::SeqCst);
+    let mut r = Rng::new(seed, "c09", case);
+    let g = qgen::gen_graph(&mut r, tier.pick(9, 12), tier.pick(16, 22));
+    let lang = if r.chance(0.55) { Lang::Gql } else { Lang::Cypher };
+    let q = qgen::gen_query(&mut r, Profile::Wide, lang, true);
+    println!("{} [{}]\n{}", q.text(), lang.name(), serde_json::to_string(&qgen::graph_json(&g)).unwrap());
+    let plan = translate(&q).expect("accepted");
+    let run = run_case(&g, q.mutation.is_some(), &plan, &[(0, 1)]);
+    println!("un-rewritten: {}\npush-down:    {}", run.base_plan, run.last_plan);
+    if let (Outcome::Rows(a), Outcome::Rows(b)) = (&run.base, &run.runs[0].3) {
+        let mut m: BTreeMap<&String, i64> = BTreeMap::new();
+        for x in a {
+            *m.entry(x).or_insert(0) += 1;
+        }
+        for x in b {
+            *m.entry(x).or_insert(0) -= 1;
+        }
+        println!("{} vs {} rows", a.len(), b.len());
+        for (k, v) in m {
+            if v != 0 {
+                println!("  {} x{}: {k}", if v > 0 { "only un-rewritten" } else { "only push-down   " }, v.abs());
+            }
+        }
+    } else {
+        println!("{}\n{}", run.base.brief(), run.runs[0].3.brief());
+    }
+    std::process::exit(0)
+}
+
+pub fn run(tier: Tier, seed: u64) -> ! {
+    if let Some(case) = std::env::var("C09_CASE").ok().and_then(|c| c.parse().ok()) {
+        replay_case(tier, seed, case);
+    }
+    let mut rep = Report::new("C09", tier, seed, "exploration");
+    rep.rule = "one random small graph + one random GQL/Cypher text per case; translated and bound once; executed under 8 switch combinations x 3 statistics states against the un-rewritten plan. Non-trivial = some configuration's optimized plan differs structurally (Debug string) from P; distinct by canonical query skeleton".into();
+    rep.assumptions = vec![
+        "physical strategy pinned for every configuration: planner.no_zone_map / no_index_path / no_range_path on, factorized execution off, no property index (physical alternatives are C10's subject)".into(),
+        "epoch-0 data loaded through the direct API; plans executed through Planner::new(store) + Executor as the repository's own tests do".into(),
+        "mutating statements run on a fresh copy of the database per configuration; returned rows and a bit-exact digest of the resulting graph are compared".into(),
+        "rows compared bit-exactly as multisets, as sequences when the ORDER BY keys identify every row".into(),
+    ];
+    hooks::NO_ZONE_MAP.store(true, Ordering::SeqCst);
+    hooks::NO_INDEX_PATH.store(true, Ordering::SeqCst);
+    hooks::NO_RANGE_PATH.store(true, Ordering::SeqCst);
+
+    let n_cases = tier.pick(800u64, 40_000u64);
+    let budget = tier.pick(250usize, 400usize);
+    let configs = all_configs();
+    let mut reduced_cache: BTreeMap<String, String> = BTreeMap::new();
+    let mut rejected_examples: BTreeMap<String, String> = BTreeMap::new();
+
+    qgen::watchdog("C09", 120);
+    run_directed(&mut rep);
+    latent_join_reorder(&mut rep);
+
+    for case in 0..n_cases {
+        let mut r = Rng::new(seed, "c09", case);
+        let g = qgen::gen_graph(&mut r, tier.pick(9, 12), tier.pick(16, 22));
+        let (q, plan) = {
+            let lang = if r.chance(0.55) { Lang::Gql } else { Lang::Cypher };
+            let q = qgen::gen_query(&mut r, Profile::Wide, lang, true);
+            match translate(&q) {
+                Ok(p) => (q, p),
+                Err(e) => {
+                    rep.count(&format!("rejected.{}", lang.name()), 1);
+                    let class: String = e.chars().take(60).collect();
+                    rejected_examples.entry(class).or_insert_with(|| q.text());
+                    continue;
+                }
+            }
+        };
+        qgen::tick(&q.text());
+        if std::env::var("C09_TRACE").is_ok() {
+            eprintln!("case {case}: {}", q.text());
+        }
+        rep.eval();
+        rep.count(&format!("plans.{}", q.lang.name()), 1);
+        if q.mutation.is_some() {
+            rep.count("plans.mutating", 1);
+        }
+        let text = q.text();
+        let run = run_case(&g, q.mutation.is_some(), &plan, &configs);
+        rep.count("configurations_executed", run.runs.len() as u64);
+        match &run.base {
+            Outcome::Rows(rows) => {
+                rep.count("baseline.rows_total", rows.len() as u64);
+                if !rows.is_empty() {
+                    rep.count("baseline.nonempty", 1);
+                }
+            }
+            Outcome::Error(_) => rep.count("baseline.error", 1),
+            Outcome::Panic(..) => rep.count("baseline.panic", 1),
+        }
+        // which rule rewrote the plan (single-switch configurations, fresh statistics)
+        let mut any_rewrite = false;
+        for (s, c, rewritten, _, _) in &run.runs {
+            if *rewritten {
+                any_rewrite = true;
+                rep.count(&format!("rewritten.stats={}.switches={}", STATS[*s], switch_name(*c)), 1);
+                if *s == 0 {
+                    match c {
+                        1 => rep.count("rule_fired.filter_pushdown", 1),
+                        2 => rep.count("rule_fired.join_reorder", 1),
+                        4 => rep.count("rule_fired.projection_pushdown", 1),
+                        _ => {}
+                    }
+                }
+            }
+        }
+        if any_rewrite {
+            rep.count("plans_rewritten", 1);
+            let sk = q.skeleton();
+            rep.nontrivial(hash_str(&sk));
+            rep.sample(json!({"lang": q.lang.name(), "query": text, "plan_before": run.base_plan.chars().take(600).collect::<String>(), "baseline": run.base.brief().chars().take(300).collect::<String>()}));
+        }
+        // compare
+        let ordered = q.ordered();
+        let failing: Vec<usize> = (0..run.runs.len()).filter(|i| mismatch(&run, *i, ordered).is_some()).collect();
+        if failing.is_empty() {
+            continue;
+        }
+        rep.count("cases_with_mismatch", 1);
+        rep.count("configurations_with_mismatch", failing.len() as u64);
+        let first = failing[0];
+        let (s, c, _, _, _) = &run.runs[first];
+        let kind0 = mismatch(&run, first, ordered).unwrap();
+        // reduce (graph, query) under the first failing configuration
+        let pre = format!("{}|{}|{}|{kind0}", q.skeleton(), s, c);
+        let sig = if let Some(sig) = reduced_cache.get(&pre) {
+            sig.clone()
+        } else {
+            let (s0, c0) = (*s, *c);
+            let mut fails = |g2: &GraphSpec, q2: &Query| still_fails(g2, q2, s0, c0).is_some();
+            let (g2, q2, used) = qgen::reduce(&g, &q, budget, &mut fails);
+            rep.count("reducer_steps", used as u64);
+            let kind = still_fails(&g2, &q2, s0, c0).unwrap_or(kind0.clone());
+            // minimal trigger: which single switches reproduce it, under which statistics
+            let mut rules = Vec::new();
+            for (bit, name) in [(1usize, "filter_pushdown"), (2, "join_reorder"), (4, "projection_pushdown")] {
+                if still_fails(&g2, &q2, 0, bit).is_some() {
+                    rules.push(name);
+                }
+            }
+            let rule = if rules.is_empty() { format!("only_combination_{}", switch_name(c0)) } else { rules.join("+") };
+            let per_stats: Vec<bool> = (0..3).map(|st| still_fails(&g2, &q2, st, c0).is_some()).collect();
+            let stats = if per_stats.iter().all(|x| *x) {
+                "any".to_string()
+            } else {
+                (0..3).filter(|i| per_stats[*i]).map(|i| STATS[i]).collect::<Vec<_>>().join("+")
+            };
+            let plan2 = translate(&q2).ok();
+            let run2 = plan2.as_ref().map(|p| run_case(&g2, q2.mutation.is_some(), p, &[(s0, c0)]));
+            // canonical part: what the rewrite did to the plan (filter push-down) or, for any
+            // other rule, the skeleton of the reduced query
+            let what = match (&plan2, run2.as_ref().and_then(|r| r.last_optimized.as_ref())) {
+                (Some(p), Some(o)) if rule == "filter_pushdown" => moved_filters(p, o),
+                _ => q2.skeleton(),
+            };
+            // an expand whose source is the NULL of an unmatched OPTIONAL MATCH raises an error;
+            // whether rows reach it depends on where the filter sits (C09-F3), whatever the filter reads
+            let null_source = run2.as_ref().is_some_and(|r| {
+                [&r.base, &r.runs[0].3].into_iter().any(|o| matches!(o, Outcome::Error(e) if e.contains("Expected node ID in source column")))
+            });
+            let what = if null_source && rule == "filter_pushdown" && !what.contains("scope=") { "vars=opt".to_string() } else { what };
+            // same number of rows, other values, and the plan carries them through a WITH projection:
+            // NULLs lose their null-ness there depending on the chunk layout (C09-F3)
+            let projects = plan2.as_ref().is_some_and(|p| has_projection(&p.root));
+            let what = if kind == "wrong_value" && projects && !what.contains("scope=") { "values_through_with".to_string() } else { what };
+            let sig = format!("c09:rule={rule}|{what}|stats={stats}|{}", coarse_kind(&what, &kind));
+            rep.deviation(
+                &sig,
+                json!({
+                    "reduced_query": q2.text(), "reduced_graph": qgen::graph_json(&g2), "skeleton": q2.skeleton(),
+                    "switches": switch_name(c0), "stats": STATS[s0],
+                    "expected_unrewritten": run2.as_ref().map(|r| r.base.brief()),
+                    "got_rewritten": run2.as_ref().map(|r| r.runs[0].3.brief()),
+                    "plan_unrewritten": run2.as_ref().map(|r| r.base_plan.clone()),
+                    "plan_rewritten": run2.as_ref().map(|r| r.last_plan.clone()),
+                    "original_query": q.text(), "case": case, "reducer_steps": used,
+                }),
+            );
+            reduced_cache.insert(pre, sig.clone());
+            continue;
+        };
+        rep.deviation(&sig, json!({"query": q.text(), "case": case, "note": "same unreduced skeleton and configuration as an earlier reduced case"}));
+    }
+
+    rep.extra.insert("rejected_examples".into(), json!(rejected_examples));
+    let fired = rep.counter("plans_rewritten");
+    if fired == 0 {
+        rep.inconclusive("the optimizer never rewrote any plan in this run");
+    }
+    for rule in ["join_reorder", "projection_pushdown"] {
+        if rep.counter(&format!("rule_fired.{rule}")) == 0 {
+            rep.extra.insert(
+                format!("note.{rule}"),
+                json!("never changed a translated plan in this run: no LPG front end emits a Join with conditions (DPccp needs a connected join graph) and push_projections_down only recurses without inserting projections"),
+            );
+        }
+    }
+    rep.finish()
 }
